@@ -462,7 +462,37 @@ def crash_scenario(cfg, scen, max_points, n_warm=8, bufsize=8192, other_fs=False
                         pass
             if scen == "overwrite":
                 shutil.copyfile(backup, P)
-        for target, off, kind in pts + [(len(events) + 5, 0, "no-kill")]:
+        def after_restart(where):
+            """The crashed job is restarted: a fresh sampler in the same directory, same label, runs with checkpoints on.  Whatever the
+            dead writer left behind must not end up under a checkpoint's final name, then or later."""
+            sr = _build(c, tmp)[0]
+            np.random.seed(c["seed"] + 5)
+            try:
+                with attach.Hooks() as hk2:
+                    attach.iteration_budget(hk2, 2)
+                    sr.run(n_total=10 ** 6, progress=False, save_every=1)
+            except attach.IterationBudgetExceeded:
+                pass
+            except Exception as e:
+                out["bad"].append(("restart-raises", f"{where}: a fresh run(save_every=1) in the directory of the crashed save raised {type(e).__name__}: {e}"))
+                return
+            out["restarts"] = out.get("restarts", 0) + 1
+            for f in sorted(os.listdir(tmp)):
+                if not f.endswith(".state"):
+                    continue
+                sx = _build(c, tmp)[0]
+                try:
+                    sx.load_state(os.path.join(tmp, f))
+                    dgx = state_digest(sx.state)
+                except Exception as e:
+                    out["bad"].append(("crash-truncated-checkpoint", f"{where}, then a fresh run(save_every=1) in the same directory: {f} ({os.path.getsize(os.path.join(tmp, f))} bytes) "
+                                       f"fails to load: {type(e).__name__}: {str(e)[:80]}"))
+                    return
+                if f == os.path.basename(P) and dgx not in (old, new):
+                    out["bad"].append(("crash-mixed-checkpoint", f"{where}, then a restart: {f} loads to neither the complete old nor the complete new state"))
+                    return
+
+        for ip, (target, off, kind) in enumerate(pts + [(len(events) + 5, 0, "no-kill")]):
             reset()
             pid = os.fork()
             if pid == 0:
@@ -470,6 +500,8 @@ def crash_scenario(cfg, scen, max_points, n_warm=8, bufsize=8192, other_fs=False
             _, st = os.waitpid(pid, 0)
             code = os.WEXITSTATUS(st)
             out["points"] += 1
+            if code == 137 and ip % 4 == 1:
+                out["_restart_due"] = True
             k0 = kind.split("+")[0]
             out["kinds"][k0] = out["kinds"].get(k0, 0) + 1
             if code == 137:
@@ -480,6 +512,12 @@ def crash_scenario(cfg, scen, max_points, n_warm=8, bufsize=8192, other_fs=False
                 out["bad"].append(("save-raises", f"child save exited {code} at kill point {kind}#{target}"))
                 continue
             where = f"killed before I/O event #{target} ({kind}) of {len(events)}" if code == 137 else "complete save"
+            if out.pop("_restart_due", False):
+                # (the directory is inspected again after the restart; the immediate inspection below then sees the same files)
+                pre_exists = os.path.exists(P)
+                after_restart(where)
+                if not pre_exists and os.path.exists(P) and scen == "fresh":
+                    pass     # judged inside after_restart (must load to old/new)
             if not os.path.exists(P):
                 if scen == "overwrite":
                     out["bad"].append(("crash-lost-old-checkpoint", f"{where}: the previous checkpoint under the final name is gone"))
@@ -688,6 +726,7 @@ def run():
         ck.case(dict(crash=dict(scen=kw["scen"], bufsize=kw["bufsize"], other_fs=bool(kw.get("other_fs")), cfg=kw["cfg"], io_events=val["events"][:12])), nontrivial=val["died"] > 0, sample=(i < 2))
         ck.event("kill points exercised", val["points"])
         ck.event("kill points at which the child really died", val["died"])
+        ck.event("crashed saves followed by a fresh run(save_every=1) in the same directory, all checkpoint files re-inspected", val.get("restarts", 0))
         for k, v in val["kinds"].items():
             ck.event(f"kill point before/inside {k}", v)
         for key, what in val["bad"]:
@@ -710,7 +749,8 @@ def run():
                 ck.violation(key, what, dict(engine="strace", syscall=sc))
     ck.require_events("checkpoints restored into a fresh sampler and compared", "resumed runs that executed further iterations",
                       "... restored into a fresh sampler and compared", "checkpoint files found after an interrupted run, each restored and resumed",
-                      "kill points at which the child really died")
+                      "kill points at which the child really died",
+                      "crashed saves followed by a fresh run(save_every=1) in the same directory, all checkpoint files re-inspected")
     return ck.finish(
         rule="configurations {vec/scalar/blobs, tpcn/rwm, clustering, cluster_every, pool-like object, integer pool, volume mode, "
              "zero-likelihood region, random_state} x every checkpoint of a save_every=1 run restored and compared bitwise with the digest taken "
